@@ -12,6 +12,8 @@ import (
 
 	"cosmossdk.io/math"
 
+	channeltypes "github.com/cosmos/ibc-go/v8/modules/core/04-channel/types"
+
 	commontypes "github.com/dymensionxyz/dymension/v3/x/common/types"
 )
 
@@ -26,7 +28,7 @@ type pkMon struct {
 func newPkMon(h *pkH, r *Run) *pkMon { return &pkMon{h: h, r: r, released: map[string]int{}} }
 
 var pkShrunk = map[string]bool{} // signatures already minimised in this process
-var pkShrinkBudget = 500        // replays the shrinker may still run
+var pkShrinkBudget = 500         // replays the shrinker may still run
 
 func (m *pkMon) violate(sig, detail string) {
 	tr := append([]string(nil), m.trace...)
@@ -319,6 +321,11 @@ func (m *pkMon) check(op, res string, cur *pkSnap) {
 		}
 	}
 
+	// ---- C03 over packets: the delayedack hard-fork hook --------------------------------------
+	if kind == "fork" && res == "ok" {
+		m.checkFork(prev, cur, idxTok(f[1]), atou(kv["h"]), op)
+	}
+
 	// ---- C05 --------------------------------------------------------------------------------
 	if (kind == "fulfill" || kind == "fauth" || kind == "ondemand") && res == "ok" {
 		m.checkFulfil(prev, cur, kind, f, kv, op)
@@ -341,6 +348,71 @@ func (m *pkMon) check(op, res string, cur *pkSnap) {
 			if d, ok := balEq(prev, cur); !ok {
 				m.violate("C05/payment_exact/fee-update-moved-balances", d)
 			}
+		}
+	}
+}
+
+// checkFork: what OnHardFork(rollapp ri, lastValid lv) must have done to packets, receipts,
+// commitments and orders (C03's clauses about packets)
+func (m *pkMon) checkFork(prev, cur *pkSnap, ri int, lv uint64, op string) {
+	inRange := func(p *pkPacket) bool { return p.Pending && p.Ra == ri && p.PH > lv && p.PH < ^uint64(0) }
+	has := func(xs []string, x string) bool {
+		for _, y := range xs {
+			if y == x {
+				return true
+			}
+		}
+		return false
+	}
+	for i := range cur.Packets {
+		if p := &cur.Packets[i]; inRange(p) {
+			m.violate("C03/packets/pending-packet-above-fork-height-remains", fmt.Sprintf("%s after `%s`", p.Name, op))
+		}
+	}
+	ck := m.h.f.App.IBCKeeper.ChannelKeeper
+	for i := range prev.Packets {
+		q := &prev.Packets[i]
+		if q.Pending && q.Ra == ri && q.PH == ^uint64(0) {
+			m.r.Hit("mon/fork-max-height-packet-out-of-range")
+		}
+		if !inRange(q) {
+			// untouched
+			n := cur.packetByKey(q.Key)
+			if n == nil || n.Target != q.Target || n.Orig != q.Orig || !n.Amount.Equal(q.Amount) || n.Failed != q.Failed || n.Denom != q.Denom {
+				m.violate("C03/packets/packet-outside-fork-range-changed", fmt.Sprintf("%s after `%s`", q.Name, op))
+			}
+			if po, pn := prev.orderByPend(q.PendKey, q.Pending), cur.orderByPend(q.PendKey, q.Pending); (po == nil) != (pn == nil) ||
+				(po != nil && (!po.Price.Equal(pn.Price) || !po.Fee.Equal(pn.Fee) || po.Fulfiller != pn.Fulfiller || po.Recipient != pn.Recipient)) {
+				m.violate("C03/packets/order-outside-fork-range-changed", fmt.Sprintf("order of %s after `%s`", q.Name, op))
+			}
+			continue
+		}
+		m.r.Hit("mon/fork-reverted-" + q.Type)
+		if q.Orig != "-" {
+			m.r.Hit("mon/fork-reverted-fulfilled-packet")
+		}
+		id := fmt.Sprintf("c%d.%d", q.Chan, q.Seq)
+		if q.Type == "R" {
+			if has(cur.Rc, id) {
+				m.violate("C03/packets/receipt-remains-for-reverted-packet", q.Name)
+			}
+		} else {
+			if !has(cur.Cm, id) {
+				m.violate("C03/packets/commitment-not-restored", q.Name)
+			} else if orig, ok := m.h.sentPkts[[2]uint64{uint64(q.Chan), q.Seq}]; ok {
+				got := ck.GetPacketCommitment(m.h.f.Ctx, pkPort, m.h.chans[q.Chan].Hub, q.Seq)
+				if string(got) != string(channeltypes.CommitPacket(m.h.f.App.AppCodec(), orig)) {
+					m.violate("C03/packets/restored-commitment-differs-from-original-packet", q.Name+" (fulfilled by "+q.Target+", original sender "+q.Orig+")")
+				}
+			}
+		}
+		if cur.orderByPend(q.PendKey, true) != nil || cur.orderByPend(q.PendKey, false) != nil {
+			m.violate("C03/packets/order-of-reverted-packet-remains", q.Name)
+		}
+	}
+	for i := range cur.Orders {
+		if o := &cur.Orders[i]; cur.packetByPend(o.PendKey) == nil {
+			m.violate("C03/packets/order-without-packet-after-fork", o.ID)
 		}
 	}
 }
